@@ -61,3 +61,29 @@ Theorem C06_every_schedule_hypothesis_satisfiable : forall (U : Type) (ps : ahb)
   eval_of U (cer_based_evalp U ps) c g = forget (eval_ahb g ps).
 Proof. exact cer_based_evalp_ok. Qed.
 Print Assumptions C06_every_schedule_hypothesis_satisfiable.
+
+(* ---- validity and the grouping inside runs of one operator (what C01 leaves unspecified). [validf] is the criterion of C06 read on the flattened tree: all
+   operands of every run valid, and in a run of O or X either all operands carry a requirement constraint or none does. A valid tree has a valid flattening;
+   conversely a valid flattening makes the tree valid PROVIDED no run of O or X over operands without requirement constraint contains both a single hint
+   and a single format constraint (corner_free) -- in that one corner the grouping decides (C05_run_grouping_can_change_validity). Hence: two trees with
+   the same corner-free flattening -- in particular any two trees the ambiguity resolution admits for one string -- are both valid or both invalid. *)
+From Ahb Require Import Proofs.C05_runs Proofs.C06_runs.
+
+Theorem C06_valid_tree_has_valid_flattening : forall e : kexpr, valid e = true -> validf (flat e) = true.
+Proof. exact valid_implies_validf. Qed.
+Print Assumptions C06_valid_tree_has_valid_flattening.
+
+Theorem C06_valid_flattening_makes_the_tree_valid : forall e : kexpr, validf (flat e) = true -> corner_free (flat e) = true -> valid e = true.
+Proof. exact validf_implies_valid. Qed.
+Print Assumptions C06_valid_flattening_makes_the_tree_valid.
+
+Theorem C06_validity_independent_of_run_grouping : forall e e' : kexpr, flat e = flat e' -> corner_free (flat e) = true -> valid e = valid e'.
+Proof. exact validity_independent_of_runs. Qed.
+Print Assumptions C06_validity_independent_of_run_grouping.
+
+Theorem C06_corner_free_examples :
+  corner_free (flat (EBin BOr (EBin BOr (EAtom [49%N]) (EAtom [50%N])) (EBin BAnd (EAtom [51%N]) (EAtom k501)))) = true /\
+  corner_free (flat (EBin BOr (EBin BOr (EAtom k501) (EAtom k502)) (EBin BAnd (EAtom k901) (EAtom k502)))) = true /\
+  corner_free (flat (EBin BOr (EBin BOr (EAtom k501) (EAtom k502)) (EAtom k901))) = false.
+Proof. exact corner_free_examples. Qed.
+Print Assumptions C06_corner_free_examples.
